@@ -588,6 +588,22 @@ extend('C04',
        '"decimoseptimo", Italian compound ordinals) and German for every n < 10^6; kernel-checked witnesses for every '
        'excluded class; 15 extraction-regex / resource defects recorded by word class.')
 
+extend('C02',
+       'ROUND 3 — "no other hidden state" is a REGENERATED obligation: an ast inventory of the seven libraries (class-level '
+       'containers and their writers, module state mutated by functions, decorators and memoisers, mutable defaults, '
+       'instance writes outside __init__, in-place argument mutations, global settings) is emitted on every run and checked '
+       'by the kernel against a committed allow-list of 264 justified entries (Props/C02State: class_state_inventory, '
+       'module_state_inventory, memo_inventory, mutation_inventory, settings_inventory; frame_pure states what a write set '
+       'buys); what remains modelled is exactly the model cache and the decimal precision. A run-time walk compares 760 '
+       'class- and module-level containers, lru caches and default objects against a fresh import, and ~182k instance '
+       'attributes below the cached models across unseen inputs. When a site is new the check searches targeted call '
+       'histories (same call twice, two cultures, two references, another offset, another query first, fallback then '
+       'no-fallback, main/worker thread, paused interleavings) in forked children and reports the first that differs from the '
+       'single-call answer; thorough validates 2,161 such histories on the unchanged tree. All six stored state-introducing '
+       'seeded changes (C02-r21, C02-r22, C03-r21, C06-r22, C09-r21, C17-r22) are caught by C02 with a concrete history.',
+       'Not covered: aliasing through call results, call-locality of the listed in-place mutations beyond the execution '
+       'disciplines, state created during model construction (covered by the fresh-process disciplines).')
+
 ALL_IDS = ['C%02d' % i for i in range(1, 21)]
 PENDING = 'check not built yet in this revision (work in progress; see DESIGN.md §8 build order)'
 
